@@ -338,9 +338,10 @@ fn cmd_run(args: &[String]) -> i32 {
             write_evidence_part_opt(args, &o, &out, 1);
             return 1;
         } else {
-            println!("note: a call did not return (C02's business); run {} abandoned, replay {}", idx, path);
-            write_evidence_part_opt(args, &o, &out, 0);
-            return 0;
+            println!(
+                "note: {} worker(s) lost in a call that did not return (C02's business; first: run {}, replay {}); the other workers went on",
+                out.hangs, idx, path
+            );
         }
     }
     if let Some((idx, rseed, cfg, ops, f)) = &out.violation {
@@ -389,6 +390,10 @@ fn cmd_run(args: &[String]) -> i32 {
             println!("HARNESS-ERROR: runs ended by panics in observation code and no violation was found");
             code = 2;
         }
+    }
+    if out.hangs as usize * 2 >= o.threads.max(2) && code == 0 {
+        println!("HARNESS-ERROR: half of the workers were lost in calls that did not return and no violation was found: no verdict");
+        code = 2;
     }
     if out.runs_done == 0 && out.hang.is_none() {
         println!("HARNESS-ERROR: no run was executed");
@@ -554,6 +559,7 @@ fn write_evidence_part(path: &str, o: &BatchOpts, out: &run::BatchOut, nviol: u3
         "runs_per_hour": (out.runs_done as f64 / wall * 3600.0) as u64,
         "runs_truncated_foreign": out.truncated_foreign,
         "runs_ended_by_observation_panic": out.obs_panics,
+        "workers_lost_to_watchdog": out.hangs,
         "fault_kinds_fired": faults,
         "probes": probes,
         "op_rel_outcome": ops,
